@@ -93,7 +93,7 @@ __CPROVER_requires(timestamp >= 0 && timestamp < (((time_t)1) << TSBITS))
 __CPROVER_assigns()
 __CPROVER_ensures(RET > timestamp && RET - timestamp <= 900 && RET % 900 == 0) /*@ C13 "local-time caches are recalculated at the next UTC quarter hour, strictly after the instant" */
 ''')],
-    harness='  time_t t; SFT__next_quarter_hour_timestamp(t);',
+    harness='  time_t t; SFT__next_quarter_hour_timestamp(t);', snapshot=[('t', 'timestamp')], replay=dict(template='pure.cpp', op='quarter'),
     variants=[dict(name='main', defs=['TSBITS=31']), dict(name='wide', tier='thorough', defs=['TSBITS=33'])],
     dropped=[], trusted=[], assumes=['timestamps below 2^31 s (quick; year 2038) / 2^33 s (thorough; year 2242): 64-bit division is at the edge of SAT reach'], min_obligations=3, timeout=600)
 
@@ -249,7 +249,7 @@ __CPROVER_assigns(g_day_base)
 __CPROVER_ensures(RET == g_day_base + ((timestamp - g_day_base) < 43200 ? 43200 : 86400)) /*@ C13 "GMT caches are recalculated at the next noon or midnight UTC: the first instant at which the date, %p or the 12-hour value can change" */
 __CPROVER_ensures(RET > timestamp && RET - timestamp <= 43200) /*@ C13 "the recalculation point is strictly after the instant and at most half a day later (the contract SFT.format_timestamp relies on)" */
 ''')],
-    harness='  time_t t; SFT__next_noon_or_midnight_timestamp(t);',
+    harness='  time_t t; SFT__next_noon_or_midnight_timestamp(t);', snapshot=[('t', 'timestamp')], replay=dict(template='pure.cpp', op='noon_midnight'),
     dropped=['std::chrono::system_clock::from_time_t / duration_cast<seconds> round trip as identity on seconds', 'struct tm date fields (pass through libc unchanged)'],
     trusted=['libc gmtime_r / timegm by the linear UTC model LIBC_breakdown / LIBC_assemble (exact for POSIX time)'], min_obligations=5)
 UNITS.append(noon_midnight)
